@@ -397,9 +397,14 @@ func (g *genState) newProfile(c *chain, fileIdx int) *Profile {
 	if g.opt.DefaultProfilesOnly {
 		pr.Default = "true"
 		g.tag("profile:default")
-		if rng.Intn(5) == 0 {
+		switch rng.Intn(6) {
+		case 0:
 			pr.Default = "false"
 			g.tag("profile:default-false")
+		case 1:
+			// No <activation> element at all: never active.
+			pr.Default = ""
+			g.tag("profile:no-activation")
 		}
 		p.Profiles = append(p.Profiles, pr)
 		return &p.Profiles[len(p.Profiles)-1]
